@@ -169,6 +169,23 @@ def gen_sequential(ctx):
             for suffix in (["f", "a1", "f", "f"], ["a%d" % bytes_for(max(3, N // 2 - 1)), "f", "f", "f"],
                            ["a%d" % bytes_for(rng.choice(sizes), rng) for _ in range(3)] + ["f"] * 4):
                 runs.append(seq_run(N, best[key] + suffix, "seq-reach"))
+    # the wrap marker at every slot it can occupy (N/2 < M <= N-1): fill up to M, drain, then ask for more
+    # than the right side has; variants leave 0, 1 or all messages unread when the writer wraps
+    for N in (8, 16, 32, 64):
+        for M in range(N // 2 + 1, N):
+            parts, rest = [], M
+            while rest:
+                k = 5 if rest == 5 else 4 if rest % 3 == 1 and rest >= 4 else 5 if rest % 3 == 2 and rest >= 5 else 3
+                if rest - k in (1, 2):
+                    k = rest
+                parts.append(k)
+                rest -= k
+            fill = ["a%d" % bytes_for(k) for k in parts]
+            big = "a%d" % bytes_for(max(3, N - M))
+            for unread in (0, 1):
+                fs = ["f"] * max(0, len(parts) - unread)
+                for tail in (["f"] * 4, ["f", "a1", "f", "f", "f"], ["a1", "a1", "f", "f", "f", "f"]):
+                    runs.append(seq_run(N, fill + fs + [big] + tail, "seq-reach"))
     ctx.cov["sequential_positions_targeted"] = reach_stats
     # (ii) long random histories biased to boundaries
     for i in range(300 if q else 6000):
@@ -448,6 +465,16 @@ def main(ctx):
         vlib.conc_correspondence(ctx, hcmd, dcmd, corpus, judge=judge, label="corpus")
     seq = gen_sequential(ctx)
     vlib.conc_correspondence(ctx, hcmd, dcmd, seq, judge=judge, label="tieB_sequential")
+    # measured (not planned) coverage: (write cursor, read cursor, marker slot) positions the real code
+    # went through in the position-directed histories
+    reach = [r for r in seq if r["kind"] == "seq-reach"]
+    outs = vlib.run_cases(hcmd, [r["conf"] + ["sched " + r["sched"], "run"] for r in reach])
+    visited = {}
+    for r, o in zip(reach, outs):
+        visited.setdefault(r["N"], set()).update(positions(o["out"]))
+    ctx.cov["sequential_positions_visited"] = {str(n): len(v) for n, v in sorted(visited.items())}
+    ctx.cov["sequential_marker_slots_visited"] = {
+        str(n): sorted({p[2] for p in v if p[2] is not None}) for n, v in sorted(visited.items())}
     vlib.conc_correspondence(ctx, hcmd, dcmd, gen_malformed(ctx), judge=judge, label="tieB_malformed")
     vlib.conc_correspondence(ctx, hcmd, dcmd, gen_concurrent(ctx), judge=judge, label="tieC_random")
     vlib.conc_correspondence(ctx, hcmd, dcmd, gen_crash(ctx, hcmd), judge=judge, label="tieC_writer_crash")
@@ -476,7 +503,11 @@ def replay(ctx, path):
         print("replay names a broken obligation only:", r.get("broken"))
         return 2
     a = vlib.run_one(hcmd, ops)
-    b = vlib.run_one(dcmd, ops)
+    # the model replays the schedule the implementation actually executed on THIS tree (a schedule
+    # recorded on another tree may be longer or shorter than what this tree needs)
+    sched = next((l[len("schedule "):] for l in a["out"] if l.startswith("schedule ")), "")
+    mops = [l for l in ops if not l.startswith("sched ") and l != "run"] + ["sched replay " + sched, "run"]
+    b = vlib.run_one(dcmd, mops)
     print("\n".join(a["out"]))
     nb = int(ops[0].split()[1])
     wf = not any(re.search(r"\b[aA]0\b", l) for l in ops if l.startswith("thr"))
@@ -486,12 +517,19 @@ def replay(ctx, path):
         print("VIOLATION property=C08 replay=%s" % path)
         print("crash: " + a["crash"][:1000])
         return 1
+    if any(l.startswith("end replay-diverged") for l in a["out"]):
+        # the recorded schedule does not fit this tree (it was recorded on different code): only the
+        # part that could be replayed is judged
+        print("# the recorded schedule diverges on this tree after the steps shown; judging the prefix")
+        run["kill"] = 1
     msg = judge(run, a["out"])
     if msg:
         print("VIOLATION property=C08 replay=%s" % path)
         print(msg)
         return 1
-    if [l for l in a["out"] if not l.startswith("#")] != [l for l in b["out"] if not l.startswith("#")]:
+    ao = [l for l in a["out"] if not l.startswith("#")]
+    bo = [l for l in b["out"] if not l.startswith("#")]
+    if ao != bo and not any(l.startswith("end replay-diverged") for l in ao):
         print("model and implementation traces differ")
         return 1
     print("replay passes on the current tree")
